@@ -4,7 +4,7 @@ Decided: every (count,size) entry point checks the multiplication the same way o
 dominates huge allocation (R2), alignment validation dominates allocation and posix_memalign's store (R3), errno conventions (R4).
 Not decided: that a well-formed request fails only when the OS refuses (liveness); absence of *any* heap side effect on failure.
 """
-import rl
+import rl, shared
 from facts import AnalysisBroken
 
 LEVEL = "other"
@@ -279,14 +279,7 @@ def r4(ctx, prog):
     for p_, q in hit:
         ok = ok and rl.returns_only(g, q, einval, src=p_) and cfg.must_pass([q], cfg.exit_points(), errno_store(g, einval)) is None
     ctx.check(R, ok, g.where(), "p == NULL: errno = EINVAL and return EINVAL", key="C06.R4:reallocarr:null")
-    news = [dd["d"] for _, dd in rl.var_init_from(g, lambda j: rl.is_call(g, j, "mi_reallocarray"))]
-    stores = [a for a, lhs, rhs, op in g.stores() if g.nodes[g.strip(lhs)]["k"] == "UnaryOperator" and g.nodes[g.strip(lhs)]["op"] == "*"
-              and not g.mentions_call(lhs, "__errno_location")]
-    ok = bool(news) and len(stores) == 1
-    if ok:
-        w = cfg.guarded(cfg.pt(stores[0]), lambda e, pol: isinstance(e, int) and rl.fact_nonnull(g, e, pol, rl.is_var(g, news[0])))
-        ok = w is None
-    ctx.check(R, ok, g.where(), "*op = newp only when the reallocation succeeded", key="C06.R4:reallocarr:store")
+    shared.reallocarr_store(ctx, R, prog)
     ctx.floor(R, 3)
 
 
